@@ -46,6 +46,20 @@ def run(repo, chk):
     gf = GenFacts(repo)
 
     # ---------------- A1 -----------------------------------------------------------
+    # the allocator functions, plus helpers that did not exist when the rules were written and are called only from them
+    from ..canon import roles as _roles
+    movers = set(STACK_MOVERS)
+    changed = True
+    while changed:
+        changed = False
+        for cand, cfn in gf.methods.items():
+            if cand in movers or f'{GEN}::CodeGen.{cand}' in _roles():
+                continue
+            callers = {fname for fname, fn in gf.methods.items() for x in ast.walk(fn)
+                       if isinstance(x, ast.Attribute) and x.attr == cand and src(x.value) == 'self' and fname != cand}
+            if callers and callers <= movers:
+                movers.add(cand)
+                changed = True
     n_assign = 0
     for fname, fn in gf.methods.items():
         for n in ast.walk(fn):
@@ -56,7 +70,7 @@ def run(repo, chk):
                     v = src(n.value)
                     paired = fname == 'eval_expr' and v in ('self.stack.add(static_array_size=static_size)',
                                                             'self.stack.add(static_array_size=-static_size)')
-                    chk.expect(fname in STACK_MOVERS or paired, 'C04.A1', f'{fname}::self.stack = {v[:50]}',
+                    chk.expect(fname in movers or paired, 'C04.A1', f'{fname}::self.stack = {v[:50]}',
                                'the frame model may only be moved by the allocator functions (or by the paired '
                                'static-size accounting around array-literal elements)', GEN, n.lineno)
     chk.floor('assignments to self.stack', n_assign, 6)
@@ -378,30 +392,18 @@ def _tracker(repo, chk):
 
 
 def _scale(repo, chk, gf):
-    from ..consteval import Interp, Env
-    it = Interp(repo)
-    tok = it.load('hidc/lexer/tokens.py')
-    astns = it.load('hidc/ast/__init__.py')
-    DT = tok['DataType']
-
-    class S:
-        pass
+    # array_size / frame_size, interpreted as methods of an unconstructed CodeGen at every word size (module-level constants
+    # they may use are resolved in the interpreted module)
+    ns = gf.module_ns()
+    DT = ns['DataType']
     for w in (2, 3, 4, 8):
-        s = S()
-        s.word_size = w
-        g = {'DataType': DT, 'ArrayType': astns['ArrayType'], 'ConcreteArrayType': type('CAT', (), {}), 'isinstance': isinstance}
-        fs = gf.methods['frame_size']
-        asz = gf.methods['array_size']
-        from ..consteval import IFunc
-        f_frame = IFunc(it, fs, g)
-        s.frame_size = lambda t, _f=f_frame, _s=s: _f(_s, t)
-        f_asz = IFunc(it, asz, g)
         try:
+            g = new_codegen(ns['CodeGen'], word_size=w)
             for n in (0, 1, 7, 8, 9, 17):
-                got = {dt.value: f_asz(s, dt, n) for dt in (DT.BOOL, DT.BYTE, DT.INT, DT.STRING)}
+                got = {dt.value: g.array_size(dt, n) for dt in (DT.BOOL, DT.BYTE, DT.INT, DT.STRING)}
                 want = {'bool': (n + 7) >> 3, 'byte': n, 'int': n * w, 'string': n * w}
                 chk.expect(got == want, 'C04.A4', f'array_size(n={n}, w={w})', f'{got} expected {want}', GEN)
-            fr = {dt.value: f_frame(s, dt) for dt in (DT.BOOL, DT.BYTE, DT.INT, DT.STRING, DT.EMPTY)}
+            fr = {dt.value: g.frame_size(dt) for dt in (DT.BOOL, DT.BYTE, DT.INT, DT.STRING, DT.EMPTY)}
             chk.expect(fr == {'bool': 1, 'byte': 1, 'int': w, 'string': w, 'empty': 0}, 'C04.A4', f'frame_size(w={w})', f'{fr}', GEN)
         except Exception as e:   # noqa
             raise AnalysisError(f'cannot tabulate array_size/frame_size: {type(e).__name__}: {e}')
